@@ -233,6 +233,33 @@ def mslMeta (p : Params) (dflt : Nat) (usedAt : Nat → Bool) (ds : List MDecl) 
       if gs.length > argumentBufferNames.length then .error "index out of bounds: ARGUMENT_BUFFER_NAMES[i]"
       else sortGroups gs
 
+/-- Metal `generate_pipeline`, the arguments of a stage's entry function: every global the stage entry point requires
+    whose storage class is `Extern` (a static sampler is remapped to `Static`) is passed as `set<i>.<name>`, `i` looked
+    up in the map built from the argument buffers — i.e. from the globals `analyse_bindings` registered.  `true` = the
+    declaration is such an argument (a cbuffer is an extern `ConstantBuffer<T>` global after `simplify_cbuffers`). -/
+def isStageArgument : MDecl → Bool
+  | .other => false
+  | .cbuffer _ _ => true
+  | .global _ _ ss _ _ _ st => st == .extern && !ss
+
+/-- some global a stage entry point of the pipeline requires is an argument without a place in an argument buffer
+    (no api slot, so never registered): since fix "an entry point that uses a global without a binding slot is an
+    error on Metal" the export is refused with `UnboundGlobal` (it used to panic on `unwrap()`) -/
+def mslUnbound (usedAt : Nat → Bool) : Nat → List MDecl → List (Option Binding) → Bool
+  | i, d :: ds, b :: bs => (usedAt i && isStageArgument d && b.isNone) || mslUnbound usedAt (i + 1) ds bs
+  | _, _, _ => false
+
+/-- the MSL exporter's `generate_pipeline` as far as the description goes: the binding analysis (its errors come
+    first), then — only when a pipeline is exported, there are no stages otherwise — the entry functions' arguments -/
+def mslExport (p : Params) (dflt : Nat) (usedAt : Nat → Bool) (hasPipeline : Bool) (ds : List MDecl) :
+    Except String (List Group) :=
+  match mslMeta p dflt usedAt ds with
+  | .error e => .error e
+  | .ok gs =>
+    match assign p dflt (ds.map MDecl.toSlot) with
+    | .error e => .error e
+    | .ok res => if hasPipeline && mslUnbound usedAt 0 ds res.bindings then .error "UnboundGlobal" else .ok gs
+
 /-! ## Printed annotations -/
 
 inductive Annot where
@@ -341,8 +368,8 @@ structure FuncDef where
   name : String
   /-- name the exporter prints for it (`NameMap`, C15) -/
   emitted : String
-  /-- evaluated `[numthreads(x, y, z)]` attributes of the function, in source order (the front end accepts
-      more than one) -/
+  /-- evaluated `[numthreads(x, y, z)]` attributes of the function, in source order (since fix "a function
+      attribute can be given only once" the front end accepts at most one: `MetaFront.parseFunctionAttributes`) -/
   attrs : List (Nat × Nat × Nat)
   deriving DecidableEq, Repr, Inhabited
 
